@@ -330,6 +330,10 @@ class ProgGen:
 
     def block(self, depth: int, n: int | None = None) -> str:
         r = self.rng
+        if n is None and depth > 0 and r.random() < 0.05:
+            # a "blank" block: white space and at most side effects (suppress_blank_control_flow_blocks)
+            ws = r.choice(["\n", "  ", " \n\t", "\n\n"])
+            return ws + (r.choice(["{% assign bl = 'b' %}", "{% increment blc %}", ""]) if r.random() < 0.4 else "") + ws
         n = n if n is not None else r.randint(1, 4)
         return "".join(self.node(depth) for _ in range(n))
 
@@ -343,7 +347,15 @@ class ProgGen:
             kind = r.choices(kinds, w)[0]
         return getattr(self, "n_" + kind)(depth)
 
+    BLANKS = ("{% if true %}\n \t{% endif %}", "{% if false %}x{% else %}\n{% endif %}",
+              "{% unless false %} \n{% endunless %}", "{% for bq in (1..2) %}\n{% endfor %}",
+              "{% case 1 %}{% when 1 %}\n \t{% endcase %}",
+              "{% for bq in (1..2) %} {% assign bl = bq %} {% endfor %}",
+              "{% if true %} {% comment %}c{% endcomment %} {% endif %}")
+
     def n_text(self, depth):
+        if self.rng.random() < 0.12:
+            return self.rng.choice(self.BLANKS)
         return self.rng.choice(["txt ", "\n", "  ", "<p>", "&amp;", "[", "]", "word\n  ", "-"])
 
     def n_output(self, depth):
